@@ -272,14 +272,16 @@ class C09:
     # ------------------------------------------------------------------ R09.4
     def means(self):
         ctx = self.ctx
-        for tm in TASK_MODS:
-            modname = f"{TASKS}.{tm}"
+        mods = [f"{TASKS}.{tm}" for tm in TASK_MODS]
+        mods += sorted(mn for mn in ctx.index.modules if mn.startswith(TASKS + ".") and mn not in mods)  # helpers moved within the package
+        for modname in mods:
+            tm = modname.split(".")[-1]
             m = ctx.index.module(modname)
             for name, defs in m.defs.items():
                 d = defs[-1]
                 if not isinstance(d, ast.FunctionDef):
                     continue
-                s = ctx.summ.of_func(modname, name)
+                s = ctx.summ.of_node(m, d, f"{modname}:{name}")
                 for e in s.calls:
                     t = e.term
                     if t[1] not in (("ext", "numpy.mean"), ("ext", "numpy.nanmean"), ("ext", "numpy.average"), ("ext", "statistics.mean")):
